@@ -72,6 +72,90 @@ def flat_index_ok(idx, rows_pred):
     return ok, (parent[0] if parent else None), f"arange(B).repeat(W): {seq_ok}; parent * B with B = rows // beam_width: {len(bsz) == 1}"
 
 
+def best_by_reward(ctx: Ctx, cls):
+    """C13.h with best-selection the returned beam is the one with the maximum REWARD: BeamSearch.post_decoder_hook, on every
+    return path taken under `self.select_best`, returns the value of `self._select_best_beam(<logprobs>, <sequences>, td, env)`
+    (which evaluates all beams).  The beams are kept sorted by score -- the first beam is the most LIKELY one, not the best."""
+    import ast
+    fi = cls.methods.get("post_decoder_hook")
+    if fi is None:
+        raise AnalysisError("BeamSearch.post_decoder_hook not found")
+    ctx.fn(fi)
+    rets = []
+
+    val_of = {}
+
+    def go(body, conds):
+        for i_, st in enumerate(body):
+            if isinstance(st, ast.Return):
+                v_ = st.value
+                if isinstance(v_, ast.Name):
+                    # `x = f(...); return x` in the same block
+                    for prev in reversed(body[:i_]):
+                        if isinstance(prev, ast.Assign) and len(prev.targets) == 1 and isinstance(prev.targets[0], ast.Name) and prev.targets[0].id == v_.id:
+                            v_ = prev.value
+                            break
+                val_of[id(st)] = v_
+                rets.append((st, list(conds)))
+            elif isinstance(st, ast.If):
+                go(st.body, conds + [(ast.unparse(st.test), True)])
+                go(st.orelse, conds + [(ast.unparse(st.test), False)])
+            elif isinstance(st, (ast.For, ast.While, ast.With, ast.Try)):
+                go(getattr(st, "body", []), conds)
+    go(fi.node.body, [])
+    under = [(r, c) for r, c in rets if any("select_best" in t and pol and not t.strip().startswith("not ") for t, pol in c)
+             or any("select_best" in t and not pol and t.strip().startswith("not ") for t, pol in c)]
+    if not under:
+        raise AnalysisError("BeamSearch.post_decoder_hook: no return path under self.select_best")
+    bad = [r for r, c in under if not (isinstance(val_of[id(r)], ast.Call) and isinstance(val_of[id(r)].func, ast.Attribute) and val_of[id(r)].func.attr == "_select_best_beam"
+                                       and len(val_of[id(r)].args) >= 4)]
+    ctx.ob("C13.h", "BeamSearch.post_decoder_hook:best-beam-by-reward", not bad, fi.loc,
+           f"{len(under)} return path(s) under select_best, each returns self._select_best_beam(...): {not bad}" +
+           ("" if not bad else f" -- line {bad[0].lineno} returns {ast.unparse(val_of[id(bad[0])])[:60]}: the first (most likely) beam is not the maximum-reward beam"),
+           construct="BeamSearch.post_decoder_hook:select-best-path")
+
+
+def beams_scored_like_single_rows(ctx: Ctx):
+    """C13.i / C13.j a beam's per-step log-probabilities are those the policy assigns to that very sequence when it is scored
+    as one row.  Two places where the multi-start layout could diverge from the single-row computation:
+      i) AttentionModelDecoder._precompute_cache: the cached projections (graph context included) do not depend on `num_starts`;
+      j) PointerAttention._inner_mha: the mask handed to the inner attention is the given per-query mask, only reshaped
+         (unsqueeze / expand / view / logical negation): no reduction (any / all / sum / max) over the query axis, which would
+         let every beam attend to the union of what is feasible for ANY beam of its instance."""
+    import ast
+    dcls = ctx.repo.get_class("rl4co/models/zoo/am/decoder.py", "AttentionModelDecoder")
+    fi = dcls.methods.get("_precompute_cache")
+    if fi is None:
+        raise AnalysisError("AttentionModelDecoder._precompute_cache not found")
+    ctx.fn(fi)
+    uses = sorted({n.lineno for n in ast.walk(fi.node) if isinstance(n, ast.Name) and n.id == "num_starts" and isinstance(n.ctx, ast.Load)})
+    ctx.ob("C13.i", "AttentionModelDecoder._precompute_cache:independent-of-num_starts", not uses, fi.loc,
+           "the cache is computed from the embeddings alone" if not uses else
+           f"`num_starts` is read at line(s) {uses}: beams (num_starts > 1) are decoded with another cache than the one the same policy uses to score the same sequence as a single row",
+           construct="AttentionModelDecoder._precompute_cache:reads-num_starts")
+    acls = ctx.repo.get_class("rl4co/models/nn/attention.py", "PointerAttention")
+    fm = acls.methods.get("_inner_mha")
+    if fm is None:
+        raise AnalysisError("PointerAttention._inner_mha not found")
+    ctx.fn(fm)
+    mask_param = [a for a in fm.params() if "mask" in a]
+    if len(mask_param) != 1:
+        raise AnalysisError(f"PointerAttention._inner_mha: mask parameter not identified ({mask_param})")
+    mp = mask_param[0]
+    RED = {"any", "all", "sum", "max", "min", "amax", "amin", "mean", "prod", "cumsum", "logical_or", "logical_and"}
+    reds = []
+    for n in ast.walk(fm.node):
+        if isinstance(n, ast.Call) and isinstance(n.func, ast.Attribute) and n.func.attr in RED and any(isinstance(x, ast.Name) and x.id == mp for x in ast.walk(n.func.value)):
+            reds.append(f"{ast.unparse(n)[:50]} (line {n.lineno})")
+        if isinstance(n, ast.Call) and isinstance(n.func, ast.Attribute) and isinstance(n.func.value, ast.Name) and n.func.value.id == "torch" and n.func.attr in RED \
+                and any(isinstance(x, ast.Name) and x.id == mp for a_ in n.args for x in ast.walk(a_)):
+            reds.append(f"{ast.unparse(n)[:50]} (line {n.lineno})")
+    ctx.ob("C13.j", "PointerAttention._inner_mha:per-query-mask-kept", not reds, fm.loc,
+           f"`{mp}` reaches the attention only through reshaping" if not reds else
+           f"`{mp}` is reduced before the attention: {reds[0]} -- the glimpse of a beam attends to nodes that are feasible for some OTHER beam of its instance; its logits differ from the single-row score of the same sequence",
+           construct="PointerAttention._inner_mha:mask-reduced")
+
+
 def run(ctx: Ctx):
     cls = ctx.repo.get_class(DEC, "BeamSearch")
     ctor_forwards(ctx, cls)
@@ -82,6 +166,8 @@ def run(ctx: Ctx):
     _C14.stateless_forward(ctx)
     for _o in ctx.obligations[_n0:]:
         _o.rule = "C13.g"
+    best_by_reward(ctx, cls)
+    beams_scored_like_single_rows(ctx)
     # ---------------- _make_beam_step
     fi, it, fr = analyse(ctx, cls, "_make_beam_step")
     # the intermediate values are recovered from the outputs (returned pair, beam_path.append, parent_beam_logprobs), not by local names
